@@ -1109,6 +1109,20 @@ fn apply_request_rewrites_and_headers(
     }
 }
 
+/// Verification hook (add-only, compiled only with `--cfg sozu_verif`): lets an
+/// out-of-tree harness run the crate-private request-side rewrite / header-edit
+/// pass on a kawa request. No production code path uses it.
+#[cfg(sozu_verif)]
+pub fn verif_apply_request_rewrites_and_headers(
+    kawa: &mut super::GenericHttpStream,
+    context: &mut HttpContext,
+    rewritten_host: Option<&str>,
+    rewritten_path: Option<&str>,
+    headers_request: &[HeaderEdit],
+) {
+    apply_request_rewrites_and_headers(kawa, context, rewritten_host, rewritten_path, headers_request)
+}
+
 /// Copy a per-frontend response-edit slice into the per-stream
 /// `HttpContext.headers_response` snapshot, applying `filter` to each
 /// edit. The snapshot is cleared before the copy so a second pass on
